@@ -170,12 +170,22 @@ func genLarge(r *core.Rand, tier string) core.Case {
 	case 0: // ------------------------------------------------ Slice
 		lines = []string{"@ C04 slice " + cn + joinInts(vs)}
 		sim.init(0, vs)
+		// the Seq is made first and ranged over later (again and again), between the other ops
+		hasSeq := r.Chance(60)
+		if hasSeq {
+			lines = append(lines, "seq")
+			nops++
+		}
 		for len(lines) <= nops {
 			m := len(sim.arr[0])
 			switch pickOp(nops+1-len(lines), 30, 12, 12, 14, 10, 4, 6, 3, 4, 5) {
 			case 0:
 				k := stop(0)
-				lines = append(lines, fmt.Sprintf("popalln %d", k))
+				if hasSeq && r.Chance(65) {
+					lines = append(lines, fmt.Sprintf("range 0 %d", k))
+				} else {
+					lines = append(lines, fmt.Sprintf("popalln %d", k))
+				}
 				for ; k > 0 && len(sim.arr[0]) > 0; k-- {
 					sim.pop(0, 'p')
 				}
@@ -219,7 +229,11 @@ func genLarge(r *core.Rand, tier string) core.Case {
 					continue
 				}
 				drains--
-				lines = append(lines, "popall")
+				if hasSeq && r.Chance(65) {
+					lines = append(lines, "rangeall 0")
+				} else {
+					lines = append(lines, "popall")
+				}
 				for len(sim.arr[0]) > 0 {
 					sim.pop(0, 'a')
 				}
@@ -235,9 +249,37 @@ func genLarge(r *core.Rand, tier string) core.Case {
 			}
 		}
 	case 1: // ------------------------------------------------ Heap (A big; B small or empty)
-		lines = []string{"@ C04 heap " + cn, "init A" + joinInts(vs)}
-		sim.init(0, vs)
-		if r.Chance(30) {
+		hdr := "@ C04 heap " + cn
+		switch r.Pick(40, 40, 20) {
+		case 1:
+			hdr += fmt.Sprintf(" %d %d", pickCap(r), pickCap(r))
+		case 2:
+			hdr += fmt.Sprintf(" %d %d zv", pickCap(r), pickCap(r))
+		}
+		zv := strings.HasSuffix(hdr, " zv")
+		var seqs []int // slot -> heap
+		if n <= 129 && !zv && r.Chance(25) {
+			// built by pushes over the capacity New got (63/64/65/100 …): the array is reallocated
+			// while the harness holds every handle and a Seq made on the empty heap
+			caps := []int{63, 64, 100}
+			c := caps[r.Intn(len(caps))]
+			if c >= n {
+				c = n - r.Range(1, 3)
+			}
+			lines = []string{fmt.Sprintf("@ C04 heap %s %d %d", cn, c, pickCap(r))}
+			if r.Chance(60) {
+				lines = append(lines, "seq A")
+				seqs = append(seqs, 0)
+			}
+			for _, v := range vs {
+				lines = append(lines, fmt.Sprintf("push A %d", v))
+				sim.attach(0, sim.alloc(v))
+			}
+		} else {
+			lines = []string{hdr, "init A" + joinInts(vs)}
+			sim.init(0, vs)
+		}
+		if r.Chance(30) || zv {
 			bs := make([]int, r.Range(1, 6))
 			for j := range bs {
 				bs[j] = fresh(len(sim.vals) + j)
@@ -245,8 +287,44 @@ func genLarge(r *core.Rand, tier string) core.Case {
 			lines = append(lines, "init B"+joinInts(bs))
 			sim.init(1, bs)
 		}
+		if len(seqs) == 0 && r.Chance(60) {
+			lines = append(lines, "seq A")
+			seqs = append(seqs, 0)
+			if r.Chance(20) {
+				lines = append(lines, "seq B")
+				seqs = append(seqs, 1)
+			}
+		}
+		slotFor := func(k int) int {
+			for sl, h := range seqs {
+				if h == k && r.Chance(65) {
+					return sl
+				}
+			}
+			return -1
+		}
+		reinit := len(seqs) > 0 && n <= 300 && r.Chance(35) // one Init of A with another comparator while the Seq is held
 		nops += len(lines) - 1
 		for len(lines) <= nops {
+			if reinit && len(lines)+2 <= nops && r.Chance(30) {
+				reinit = false
+				c2 := earlyCmps[r.Intn(4)]
+				m2 := []int{63, 64, 65, 100}[r.Intn(4)]
+				ws := make([]int, m2)
+				for j := range ws {
+					ws[j] = fresh(len(sim.vals) + j)
+				}
+				lines = append(lines, "initc A "+c2+joinInts(ws))
+				sim.cmps[0] = cmpOf(c2)
+				sim.init(0, ws)
+				// the Seq made before the Init enumerates the new content in the new order
+				s := largeStop(r, m2, true, false)
+				lines = append(lines, fmt.Sprintf("range 0 %d", s))
+				for ; s > 0 && len(sim.arr[0]) > 0; s-- {
+					sim.pop(0, 'a')
+				}
+				continue
+			}
 			k := 0
 			if r.Chance(8) {
 				k = 1
@@ -260,10 +338,18 @@ func genLarge(r *core.Rand, tier string) core.Case {
 				}
 				return sim.pick(r, k)
 			}
-			switch pickOp(nops+1-len(lines), 30, 12, 12, 14, 10, 4, 6, 3, 4, 5, 6) {
+			switch pickOp(nops+1-len(lines), 30, 12, 12, 14, 10, 4, 6, 3, 4, 5, 6, 5) {
+			case 11:
+				// Remove / Fix on a struct copy of the heap
+				e := handle()
+				lines = append(lines, fmt.Sprintf("%s %s %d", []string{"copyrm", "copyfix"}[r.Intn(2)], H, e))
 			case 0:
 				s := stop(k)
-				lines = append(lines, fmt.Sprintf("popalln %s %d", H, s))
+				if sl := slotFor(k); sl >= 0 {
+					lines = append(lines, fmt.Sprintf("range %d %d", sl, s))
+				} else {
+					lines = append(lines, fmt.Sprintf("popalln %s %d", H, s))
+				}
 				for ; s > 0 && len(sim.arr[k]) > 0; s-- {
 					sim.pop(k, 'a')
 				}
@@ -300,7 +386,11 @@ func genLarge(r *core.Rand, tier string) core.Case {
 					continue
 				}
 				drains--
-				lines = append(lines, "popall "+H)
+				if sl := slotFor(k); sl >= 0 {
+					lines = append(lines, fmt.Sprintf("rangeall %d", sl))
+				} else {
+					lines = append(lines, "popall "+H)
+				}
 				for len(sim.arr[k]) > 0 {
 					sim.pop(k, 'a')
 				}
